@@ -21,6 +21,7 @@ pub fn script(args: &[String]) -> i32 {
     let mg = MoveGenerator::new();
     let mut w = std::io::BufWriter::new(std::fs::File::create(&output).unwrap());
     let mut eng: Option<Flounder> = None;
+    let mut texts: Vec<String> = vec![];     // the commands handled since the engine was created
     for line in std::fs::read_to_string(&input).unwrap().lines() {
         let c: Value = match serde_json::from_str(line) {
             Ok(v) => v,
@@ -30,6 +31,7 @@ pub fn script(args: &[String]) -> i32 {
             continue;
         }
         if c["n"] == 1 || eng.is_none() {
+            texts.clear();
             eng = Some(Flounder::new());
             writeln!(w, "{}", json!({"ev":"start"})).ok();
         }
@@ -47,6 +49,7 @@ pub fn script(args: &[String]) -> i32 {
                 ev[k] = c[k].clone();
             }
         }
+        texts.push(text.to_string());
         let ok = catch_unwind(AssertUnwindSafe(|| f.verif_handle_command(text))).is_ok();
         if !ok {
             ev["crashed"] = json!(true);
@@ -77,10 +80,27 @@ pub fn script(args: &[String]) -> i32 {
                 // ... and what the REAL search does with the successors: a depth-1 search on the engine's own Searcher with
                 // the event sink on; for every node entered at ply 1: did it return through the repetition rule, with which
                 // score, and was anything searched below it
+                // (on a SECOND engine that was given the same commands and has searched nothing: C09 speaks of a search that
+                //  does not rely on results cached before the history existed, so the probe must not see the tables filled by
+                //  the probes of earlier commands)
                 crate::timer::verif::set_poll_limit(None);
-                crate::search::verif::set_sink(true);
-                let sr = catch_unwind(AssertUnwindSafe(|| f.verif_searcher().find_best_move(&b, 1, None)));
-                let evs = crate::search::verif::set_sink(false);
+                let mut sr = catch_unwind(AssertUnwindSafe(|| {
+                    let mut g = Flounder::new();
+                    for t in &texts {
+                        g.verif_handle_command(t);
+                    }
+                    g
+                }));
+                let mut evs = vec![];
+                let sr = match sr.as_mut() {
+                    Ok(g) => {
+                        crate::search::verif::set_sink(true);
+                        let r = catch_unwind(AssertUnwindSafe(|| g.verif_searcher().find_best_move(&b, 1, None)));
+                        evs = crate::search::verif::set_sink(false);
+                        r.map(|_| ())
+                    }
+                    Err(_) => Err(Box::new(()) as Box<dyn std::any::Any + Send>),
+                };
                 if sr.is_err() {
                     ev["crashed"] = json!(true);
                 } else {
